@@ -382,12 +382,16 @@ theorem scanCommentTok_spec (cfg : Cfg) (hd : cfg.d ≠ .go) (fuel : Nat) (hF : 
     have hg : Good src { look.1 with ch := if sharp = true then 0x23 else 0x2F, off := st.off, rdOff := st.off + 1 } := by
       have hg2 := c.good a2
       have hu2 : look.1.unitVal = [] := (c.adv.trans a2).unit.trans c.hu0
-      refine ⟨⟨by simp, by simp only; omega, ?_, by simp, ?_, ?_, ?_⟩, hg2.ok, by simp only [hu2]; simp, by simp only [hu2]; simp [slice_self]⟩
+      refine ⟨⟨by simp, by simp only; omega, ?_, by simp, ?_, ?_, ?_, ?_⟩, hg2.ok, by simp only [hu2]; simp, by simp only [hu2]; simp [slice_self]⟩
       · simp only [eofCh]; intro h; split at h <;> omega
       · intro _; simp only; exact ⟨hb.trans hc, trivial⟩
       · simp only; intro h; split at h <;> omega
       · simp only
         rw [← hc]; exact hi.decoded
+      · intro _
+        simp only
+        have : byteAt src st.off < 0x80 := by rw [hb]; exact hlt
+        simp [this]
     apply autoSemi_spec cfg c.hu0 hg ((c.adv.trans a2).unit.trans c.hu0) h00 (Nat.le_refl _)
       (Or.inr ⟨h00, hsemi0⟩) c.ws (Or.inl rfl)
   · -- the comment
